@@ -1105,6 +1105,9 @@ class unyt_array(np.ndarray):
         ret = self.v * conv
         if offset:
             ret = ret - offset
+        # same dtype rule as in_units: a float of the data's item size
+        new_dtypekind = "c" if self.dtype.kind == "c" else "f"
+        ret = ret.astype(new_dtypekind + str(max(2, self.dtype.itemsize)), copy=False)
         return type(self)(ret, to_units)
 
     def in_cgs(self):
